@@ -1,7 +1,17 @@
 package provider
 
 import (
+	"context"
+	"io"
+	"net/http"
+	"strings"
+	"sync"
+
+	phttp "github.com/yandex/pandora/components/guns/http"
 	"github.com/yandex/pandora/components/providers/http/config"
+	"github.com/yandex/pandora/components/providers/http/decoders"
+	"github.com/yandex/pandora/core"
+	"go.uber.org/zap"
 )
 
 // ---- C14: preload on/off deliver the same sequence and end the same way; chosencases selects
@@ -111,5 +121,75 @@ func HarnessC14KnownNothingChosenSpin() {
 	file := c08File(config.DecoderURI, 2)
 	s := c08Drain(config.DecoderURI, file, 0, 0, false, []string{"t3"}, 100)
 	vCheck("K.nothing.chosen.terminates", s.done)
+	vReach("end")
+}
+
+// ---- requests in flight: a pool with many instances holds every delivered entry at the same
+// time (all are acquired, then all requests are built, then all bodies are read); the requests
+// delivered with preload are those delivered without it.
+
+func c14InFlight(preload bool, passes uint) (out []string, runErr error) {
+	file := "1 /a t1\nx\n2 /b t2\nyz\n"
+	conf := config.Config{Decoder: config.DecoderURIPost, Passes: passes, Preload: preload}
+	d, err := decoders.NewDecoder(conf, strings.NewReader(file))
+	vCheck("D0.decoder.created", err == nil)
+	p := &Provider{Config: conf, Decoder: d, Sink: make(chan decoders.DecodedAmmo)}
+	var wg sync.WaitGroup
+	wg.Add(1)
+	go func() {
+		defer wg.Done()
+		runErr = p.Run(context.Background(), core.ProviderDeps{Log: zap.NewNop()})
+	}()
+	var held []core.Ammo
+	for {
+		a, ok := p.Acquire()
+		if !ok {
+			break
+		}
+		held = append(held, a)
+		if len(held) > 8 {
+			break
+		}
+	}
+	wg.Wait()
+	// (Acquire has built the request of every held entry already)
+	var reqs []*http.Request
+	for _, a := range held {
+		ga, isGun := a.(phttp.Ammo)
+		vCheck("P1.request.built", isGun && !ga.IsInvalid())
+		if !isGun {
+			return
+		}
+		req, sample := ga.Request()
+		reqs = append(reqs, req)
+		out = append(out, req.Method+" "+req.URL.Path+" "+sample.Tags()+" ")
+	}
+	for i, req := range reqs {
+		var body []byte
+		if req.Body != nil {
+			body, _ = io.ReadAll(req.Body)
+		}
+		out[i] += string(body)
+	}
+	for _, a := range held {
+		p.Release(a)
+	}
+	return
+}
+
+func HarnessC14InFlight() {
+	passes := uint(vConcretize(vNondetInt("passes", 1, 3)))
+	s, serr := c14InFlight(false, passes)
+	p, perr := c14InFlight(true, passes)
+	one := []string{"POST /a t1 x", "POST /b t2 yz"}
+	vCheck("P1.inflight.same.length", len(s) == len(p) && len(s) == 2*int(passes))
+	for i := range s {
+		vCheck("P1.inflight.stream.request", s[i] == one[i%2])
+	}
+	for i := range p {
+		vCheck("P1.inflight.preload.request", p[i] == one[i%2])
+	}
+	vCheck("P2.inflight.end.same", (serr == nil) == (perr == nil))
+	vObserve("n", int64(len(p)))
 	vReach("end")
 }
